@@ -59,9 +59,9 @@ func runOnce(cfg obs.Cfg, base int) (obs.Snap, string, string) {
 		if runtime.NumGoroutine() <= base {
 			break
 		}
-		if i > 2000 {
-			return s, "goroutines left blocked after the outputs were closed and drained",
-				fmt.Sprintf("%d goroutines alive 2 s after completion (baseline %d)", runtime.NumGoroutine(), base)
+		if i > 1000 {
+			return s, "goroutines left blocked after the combinator finished",
+				fmt.Sprintf("%d goroutines alive 1 s after completion (baseline %d)", runtime.NumGoroutine(), base)
 		}
 		if i < 50 {
 			runtime.Gosched()
@@ -92,6 +92,7 @@ func main() {
 		results[i] = Result{Cfg: c, ID: c.ID()}
 	}
 	base := runtime.NumGoroutine()
+	nfail := 0
 	deadline := time.Now().Add(time.Duration(job.Seconds * float64(time.Second)))
 	for round := 0; ; round++ {
 		if job.Iters > 0 && round >= job.Iters {
@@ -110,6 +111,16 @@ func main() {
 			}
 			if class != "" && len(r.Failures) < 3 {
 				r.Failures = append(r.Failures, Failure{class, detail})
+				nfail++
+			}
+			if nfail > 12 { // enough evidence; failing runs cost seconds each
+				for _, r := range results {
+					enc.Encode(r)
+				}
+				os.Exit(0)
+			}
+			if class != "" {
+				base = runtime.NumGoroutine() // goroutines a failing run left behind must not be blamed on the next one
 			}
 			if class == "deadlock" {
 				// blocked or spinning goroutines stay behind and poison everything after: stop here
